@@ -1,6 +1,7 @@
 /-
   Model of socket/udp-turn-over-tcp.c (TURN framing over a TCP byte stream), as the code is NOW
-  (with the capacity check `expecting_len + padlen > sizeof (recv_buf)` -> -1).
+  (with the capacity check `expecting_len + padlen > sizeof (recv_buf)` -> -1, and the payload read
+  skipped when nothing remains to be read).
 
   State: `buf` = recv_buf.u8[0 .. recv_buf_len) (so `buf.length` is `recv_buf_len`), `expecting` =
   `expecting_len`.  The 65536-byte union `recv_buf` is a capacity: every read hands the base a
@@ -50,7 +51,8 @@ def recvPayload (s : St) (b : Base) : (Int × Option Bytes) × St × Base :=
     let s := if s.buf.length > s.expecting + padlen then { s with fault := true } else s
     let cap := s.expecting + padlen - s.buf.length
     let s := if s.buf.length + cap > BUFSZ then { s with fault := true } else s
-    let ((ret, bytes), b) := b.read cap
+    -- a frame without payload is complete once its header is read: no zero-length read is issued
+    let ((ret, bytes), b) := if cap > 0 then b.read cap else ((0, []), b)
     if ret < 0 then ((ret, none), s, b)
     else
       let s := { s with buf := s.buf ++ bytes }
